@@ -300,6 +300,68 @@ def run_include(c, backed):
     return _observe(lambda: lk.get_template(top).render(**kw))
 
 
+PROBE = ("{probe|%s}${self.sib()}{uri|${local.uri}}{suri|${self.uri}}{attr|${self.attr.m}}"
+         "${local.get_template('t.html').render()}{ctx|${v}}")
+
+
+def _probe_module():
+    name = "c07probe_%d" % os.getpid()
+    p = os.path.join(_modules_dir(), name + ".py")
+    if not os.path.exists(p):
+        with open(p, "w") as f:
+            f.write("def probe(context):\n    context.write('{probe|P}{ctx|%s}' % context.get('v'))\n    return ''\n")
+        import importlib
+        importlib.invalidate_caches()
+    return name
+
+
+def run_multins(c, backed):
+    """One template declaring several namespaces; a def of each reports what it sees.  URIs in the output are
+    projected to the ids of the spec (A, B, M) by normalising them."""
+    import posixpath
+    rel = c["spell"] == "rel"
+    t = {"/t.html": "{at||1}", "/a/t.html": "{at|a|1}", "/a/b/t.html": "{at|a/b|1}", "/x/t.html": "{at|x|1}"}
+    for ident, uri in (("A", "/a/b/na.html"), ("B", "/x/nb.html")):
+        t[uri] = '<%%! m = "%s" %%>\n<%%def name="sib()">{sib|%s}</%%def>\n<%%def name="probe()">%s</%%def>\nbody-%s\n' % (
+            ident, ident, PROBE % ident, ident)
+    m = '<%! m = "M" %>\n<%def name="sib()">{sib|M}</%def>\n'
+    for kind in c["decl"]:
+        if kind == "fa":
+            m += '<%%namespace name="fa" file="%s"/>\n' % ("b/na.html" if rel else "/a/b/na.html")
+        elif kind == "fb":
+            m += '<%%namespace name="fb" file="%s"/>\n' % ("../x/nb.html" if rel else "/x/nb.html")
+        elif kind == "inl":
+            m += '<%%namespace name="inl">\n<%%def name="probe()">%s</%%def>\n</%%namespace>\n' % (PROBE % "I")
+        else:
+            m += '<%%namespace name="mod" module="%s"/>\n' % _probe_module()
+    if c["assign"]:
+        m += "<% v = 99 %>\n"
+    for kind in c["decl"]:
+        m += "{call|%s}${%s.probe()}\n" % (kind, kind)
+    t["/a/m.html"] = m
+    ids = {"/a/b/na.html": "A", "/x/nb.html": "B", "/a/m.html": "M"}
+    if backed:
+        _W["n"] = _W.get("n", 0) + 1
+        base = os.path.join(_W["scratch"], "multi-%d-%d" % (os.getpid(), _W["n"]))
+        for uri, text in t.items():
+            pth = os.path.join(base, uri.lstrip("/"))
+            os.makedirs(os.path.dirname(pth), exist_ok=True)
+            with open(pth, "w") as f:
+                f.write(text)
+        from mako.lookup import TemplateLookup
+        lk = TemplateLookup(directories=[base])
+    else:
+        lk = _lookup_with(t, False, "multi")
+    obs = _observe(lambda: lk.get_template("/a/m.html").render(v=7))
+    out = []
+    for tok in obs:
+        k, _, rest = tok.partition("|")
+        if k in ("uri", "suri"):
+            tok = k + "|" + ids.get(posixpath.normpath(rest), rest)
+        out.append(tok)
+    return out
+
+
 def _plain(u):
     return not u["empty"] and all(s not in ("", ".", "..") for s in u["segs"])
 
@@ -315,6 +377,8 @@ def _run_batch(args):
                 obs = run_nsprec(c, backed)
             elif c["fam"] == "inh":
                 obs = run_inh(c, backed)
+            elif c["fam"] == "multins":
+                obs = run_multins(c, backed)
             else:
                 obs = run_include(c, backed)
         except MachineryError:
@@ -383,7 +447,7 @@ def random_session(rng, nsp, plain_sp, thorough):
 
 
 INVS = ["RelativeToWriter", "AbsoluteToRoot", "UnresolvableRaisesLookup", "MemoConsistent", "InlineDefsWin",
-        "ImportsBeforeContext", "InheritableReachable", "IncludeIndependent", "IncludeArgsFirst"]
+        "ImportsBeforeContext", "InheritableReachable", "IncludeIndependent", "IncludeArgsFirst", "NamespaceDefsKeepTheirOwnSelf"]
 
 
 def check(run):
@@ -396,7 +460,7 @@ def check(run):
     if res.violated:
         run.spec_violation(res)
         return {"rule": "TLC found the design model violating %s" % res.violated, "exhaustive": True}
-    for a in ("Resolve", "PopulateImports", "Calls", "GenNamespaces", "Bodies", "Include", "Finish"):
+    for a in ("Resolve", "PopulateImports", "Calls", "GenNamespaces", "Bodies", "Include", "MakeNamespace", "Probe", "Finish"):
         if not res.coverage.get(a, [0, 0])[1]:
             raise MachineryError("vacuous model checking: action %s never taken (%s)" % (a, res.coverage))
     run.extra["action_coverage"] = {a: v[1] for a, v in res.coverage.items() if a[0].isupper()}
@@ -428,6 +492,11 @@ def check(run):
         if c["fam"] == "uri":
             items.append((idx, c, True))
             if c["layout"] != 3 and all(_plain(q["u1"]) and (not q["s2"] or _plain(q["u2"])) for q in c["reqs"]):
+                items.append((idx, c, False))
+        elif c["fam"] == "multins":
+            # a relative "../x/nb.html" needs normalisation: file-backed only; everything else on both kinds of lookup
+            items.append((idx, c, True))
+            if not (c["spell"] == "rel" and "fb" in c["decl"]):
                 items.append((idx, c, False))
         else:
             items.append((idx, c, (idx + run.seed) % 2 == 0))
